@@ -29,6 +29,8 @@ CHECKS = {
             'error <= c*eps*norm per path, and exact equality at the default eps (decides sign/scale preservation under the positive-diagonal QR convention).', '4 C10'),
     'C18': ('model_checking', 'Shape-level symbolic execution: mode sizes and ranks of the operands are z3 integers in [1,B]; for every public entry point and operand-kind pair one run per structure explores the '
             'guards and the torch shape calculus; for every returning path z3 decides EXISTS sizes . NOT compatible (independent predicate from the docs); argument-type classes enumerated; documented exception classes compared.', '4 C18'),
+    'C19': ('model_checking', 'load(save(x)), clone, detach, to, cpu, numpy on objects built from symbolic cores, by slicing, by TT-SVD and by rounding; the explorer reaches the paths on which the rank list holds numpy '
+            'integers; z3 decides entry equality, the remaining clauses (kind, shape, ranks, dtype, storage independence) are structural per path. torch.save/load are a stub validated by real replay.', '4 C19'),
     'C20': ('model_checking', 'forward(x) == W.x + b for all weights, biases and inputs per layer structure (modes, rank profiles, batch dims, initialisers, dtypes); parameter registration checked structurally. Gradient clause under C15.', '4 C20'),
 }
 
